@@ -165,8 +165,9 @@ def _faults(c, rng):
     if ep == "composite" and c["kind"] == "stacking":
         put("fh:missing", fh="none")
     if ep == "split":
-        if c["kind"] != "cutoff" and c["kind"] != "single":
-            put("fh:absolute", fh="a:%d" % (n - 1))
+        # splitters work in steps ahead: time points are refused by every kind (small ones too, which could pass for steps)
+        put("fh:absolute", fh="a:%d" % (n - 1))
+        put("fh:absolute", fh="a:1,2")
         for f in INT_FAULTS:
             put("wl:" + f, wl=f)
             if c["kind"] in ("sliding", "expanding"):
